@@ -356,6 +356,45 @@ def step (st : St) (line : String) : St × String :=
         (st, s!"seq={showSeq2 dstQ sp.e eu acts} dst={showState (fs dstQ)} tmp={showTmp fs acts} reader={if readerOk2 um dstQ fs0 (newFile mode um pieces) acts then "ok" else "BAD"}")
       | none => (st, "bad-op")
     | _, _, _, _, _, _, _ => (st, "bad-op")
+  | ["collide", old, k, pcs, fault, cbm] =>
+    -- REAL collisions: the directory already holds the first k candidate names (the harness pins crypto/rand.Reader)
+    match parseOld? old, k.toNat?, parsePieces? pcs, parseFault2? fault, parseCb2? cbm with
+    | some old, some k, some sizes, some sp, some (cb, _, _) =>
+      let pieces := mkPieces sizes
+      let cand : Nat → Path := fun i => codeStr (str "/d/safe" ++ decimal (7000 + i))
+      let pre : Nat → FileData := fun i => ⟨genBytes i 10 7, 0o600⟩
+      let fs0 : FS := fun p =>
+        if p = dstQ then old
+        else match (List.range k).find? (fun i => cand i = p) with
+          | some i => some (pre i)
+          | none => none
+      let r := writeFileFull codeStr tmpdirS dstS st.N 0o644 pieces cb sp.fault (fun i => 7000 + i) sp.ofaults false fs0
+      let fs := run2 0o22 fs0 r.2
+      let same := ((List.range k).filter fun i => fs (cand i) = some (pre i)).length
+      let new := match tmpOf r.2 with
+        | some p => if (fs p).isSome then 1 else 0
+        | none => 0
+      (st, s!"res={showRes2 r.1 sp.e} dst={showState (fs dstQ)} pre={same}/{k} new={new} opens={r.2.length - (r.2.filter fun a => actKind2 a != "open").length}")
+    | _, _, _, _, _ => (st, "bad-op")
+  | ["selfcollide", pcs, fault, cbm] =>
+    -- the excluded case made real: an absent destination called safe123 and a random source that yields 123
+    match parsePieces? pcs, parseFault2? fault, parseCb2? cbm with
+    | some sizes, some sp, some (cb, _, _) =>
+      let pieces := mkPieces sizes
+      let name := str "/d/safe123"
+      let dq := codeStr name
+      let fs0 : FS := fun _ => none
+      let r := writeFileFull codeStr tmpdirS name st.N 0o644 pieces cb sp.fault (fun _ => 123) sp.ofaults false fs0
+      let upto := match sp.fault with
+        | .callback j => j
+        | .panic j => j
+        | _ => pieces.length
+      let during :=
+        if upto = 0 then "-"
+        else showState (run2 0o22 fs0 (r.2.take (1 + (feed st.N [] (pieces.take upto)).1.length)) dq)
+      let fs := run2 0o22 fs0 r.2
+      (st, s!"res={showRes2 r.1 sp.e} during={during} dst={showState (fs dq)}")
+    | _, _, _ => (st, "bad-op")
   | ["clean", h] =>
     match hexStr? h with
     | some p => (st, strHex (clean p))
